@@ -658,6 +658,7 @@ static CaseResult evaluate(int arch, int cfg, const std::vector<int>& hist) {
       if (lin.err != X.fin) return fail(std::string("error-differs:asm=") + errname(lin.err) + ":bld=" + errname(X.fin), std::string("assembling the edited sequence: ") + errname(lin.err) + (lin.idx >= 0 ? " at entry " + std::to_string(lin.idx) : std::string()) + ", finalize(): " + errname(X.fin), comp);
       clause = diff_snap(lin.snap, X.snap, detail); if (!clause.empty()) return fail(clause, detail + " (reference: edited sequence)", comp);
     }
+    if (which == 0) vh::ctx().outcomes.insert(std::string(arch_name(arch)) + ":" + errname(X.call_idx >= 0 ? X.call_err : X.fin));
     if (which == 0) { for (auto& s : X.snap.sec) if (s.size() > s.find(':', s.find(':') + 1) + 1) R.nontrivial = true; if (X.fin != Error::kOk || X.snap.labels.find('b') != std::string::npos) R.nontrivial = true; }
   }
   if (R.v == V_TERMINAL) return R;
@@ -809,7 +810,7 @@ int main(int argc, char** argv) {
     std::vector<int> h;
     // layer 1: every history over the full alphabet (emitter calls + node-list edits)
     { Layer L; h.clear(); explore(arch, 0, h, 0, full, d_full, L); total_cases += L.cases;
-      bounds += std::string(arch_name(arch)) + ": all histories to depth " + std::to_string(d_full) + " over " + std::to_string(full.size()) + " ops (" + std::to_string(L.cases) + " in this shard); "; }
+      bounds += std::string(arch_name(arch)) + ": all histories to depth " + std::to_string(d_full) + " over " + std::to_string(full.size()) + " ops; "; }
     // layer 1b (thorough): deeper over the reduced alphabet
     if (d_small > d_full) { Layer L; h.clear(); explore(arch, 0, h, 0, small, d_small, L); total_cases += L.cases;
       bounds += "depth " + std::to_string(d_small) + " over " + std::to_string(small.size()) + " ops; "; }
